@@ -3,12 +3,57 @@ package harness
 // C09 — server push: Notify / Callback delivery, matching, timeout, shutdown semantics.
 
 import (
+	"context"
 	"encoding/json"
 	"fmt"
 	"strconv"
 	"strings"
 	"testing"
+
+	"github.com/creachadair/jrpc2"
+	"github.com/creachadair/jrpc2/handler"
 )
+
+// c09PushGate: the gates come first, whatever the parameters are - without AllowPush every Notify
+// and Callback is ErrPushUnsupported, after the connection has ended ErrConnClosed - and nothing is
+// transmitted (also for parameters that would be refused on their own account).
+func c09PushGate(res *Result) {
+	params := []struct {
+		name string
+		v    any
+	}{{"nil", nil}, {"array", []int{1}}, {"object", map[string]int{"k": 1}}, {"scalar", 5}, {"string", "s"}, {"null", json.RawMessage("null")},
+		{"unencodable", make(chan int)}, {"bad raw", json.RawMessage(`{"a":`)}, {"typed nil", (*int)(nil)}}
+	for _, state := range []string{"no-push", "ended"} {
+		for _, p := range params {
+			cli, sch := newVPair()
+			srv := jrpc2.NewServer(handler.Map{}, &jrpc2.ServerOptions{AllowPush: state == "ended"}).Start(sch)
+			want := jrpc2.ErrPushUnsupported
+			if state == "ended" {
+				cli.Close()
+				srv.Wait()
+				want = jrpc2.ErrConnClosed
+			}
+			before := sch.st.sends.Load()
+			ctx := context.Background()
+			nerr := srv.Notify(ctx, "n", p.v)
+			_, cerr := srv.Callback(ctx, "c", p.v)
+			in := map[string]any{"server": state, "params": p.name}
+			res.Case("pushgate/"+state+"/"+p.name, true, in)
+			res.Count("push-gate")
+			res.Traces++
+			if nerr != want || cerr != want || sch.st.sends.Load() != before {
+				res.Violatef("Notify / Callback on a server that cannot push did not return the gate's error (or transmitted something)", in,
+					"want %v; Notify: %v, Callback: %v; %d records sent", want, nerr, cerr, sch.st.sends.Load()-before)
+			} else {
+				res.Agreements++
+			}
+			if state != "ended" {
+				cli.Close()
+				srv.Wait()
+			}
+		}
+	}
+}
 
 func TestC09(t *testing.T) {
 	res := newResult("C09", "scenarios: concurrent callbacks and notifications issued from handlers (also from a notification handler that awaits its callback) and from outside, peer replies in any order incl. error replies, duplicates, late and unsolicited ids, context cancellation vs reply vs Stop in every order the scheduler picks, client calls whose ids collide with callback ids, with and without AllowPush. distinct = distinct event-log shape; non-trivial = at least one callback outstanding when another event races it")
@@ -283,6 +328,7 @@ func TestC09(t *testing.T) {
 			}
 		}
 	}
+	c09PushGate(res)
 	model := runOracle(t, lines)
 	for i, m := range model {
 		res.Traces++
